@@ -55,6 +55,7 @@ def run(tier, seed, scale):
     chk.require(st.get("type_edge_strided", 0) > 500, "fewer than 500 strided loops at the type edges")
     chk.require(st.get("axis_collision_cases", 0) > 100, "fewer than 100 multi-dimensional ranges with tying axis products (> 2^53)")
     chk.require(st.get("feeder_items", 0) > 10000, "fewer than 10000 feeder-added items")
+    chk.require(chk.inconclusive == 0, "%d process(es) stalled without a classifiable state (keeper threads keep the process from ever being quiescent); re-run" % chk.inconclusive)
     chk.extra["windows"] = {
         "offer_work_splits": n(200),
         "stolen_task_raised_depth(check_being_stolen)": n(201),
